@@ -15,6 +15,7 @@ from __future__ import annotations
 import contextlib
 import io
 import itertools
+import random
 import time
 
 from vlib import Check, run_check
@@ -229,7 +230,11 @@ def main(ck: Check):
         gname = f"{meta.name} (id {meta.id}, lv {meta.req_level}, boss={meta.boss_reward}, {wclass(meta)})"
         n_here = 0
         cases_here = []
-        for opts in option_sets(meta, rng, n_sampled):
+        # independent seeded streams, so that the time box below cannot shift later random choices
+        orng = random.Random(f"C18:{ck.seed}:{meta.id}:options")
+        prng = random.Random(f"C18:{ck.seed}:{meta.id}:perturbed")
+        srng = random.Random(f"C18:{ck.seed}:{meta.id}:sample")
+        for opts in option_sets(meta, orng, n_sampled):
             if ck.time_left() < 0.4 * ck.budget_s:
                 truncated = True            # keep time for the proofs and the model runs
                 break
@@ -274,25 +279,25 @@ def main(ck: Check):
         bases = [c[1] for c in cases_here if len(c[3]) <= 2]
         t_pert = time.time()
         for i in range(n_pert):
-            if time.time() - t_pert > pert_seconds:
+            if time.time() - t_pert > pert_seconds or not bases:
                 break
-            base = rng.choice(bases)
+            base = prng.choice(bases)
             d = {f: getattr(base, f) for f in OBS_FIELDS}
             mode = i % 4
             if mode == 0:
-                f = rng.choice(["STR", "DEX", "INT", "LUK"]); d[f] = max(0, d[f] + rng.choice([-2, -1, 1, 2, 3]))
+                f = prng.choice(["STR", "DEX", "INT", "LUK"]); d[f] = max(0, d[f] + prng.choice([-2, -1, 1, 2, 3]))
             elif mode == 1:
                 for f in ("STR", "DEX", "INT", "LUK"):
                     d[f] = 0
-                for f in rng.sample(["STR", "DEX", "INT", "LUK"], rng.randint(1, 2)):
-                    d[f] = rng.randint(1, 60)
+                for f in prng.sample(["STR", "DEX", "INT", "LUK"], prng.randint(1, 2)):
+                    d[f] = prng.randint(1, 60)
             elif mode == 2:
-                f = rng.choice(SINGLE_FIELDS); d[f] = max(0, d[f] + rng.choice([-1, 1, 2, 30]))
+                f = prng.choice(SINGLE_FIELDS); d[f] = max(0, d[f] + prng.choice([-1, 1, 2, 30]))
             else:
-                v = rng.randint(0, 8)
+                v = prng.randint(0, 8)
                 for f in ("STR_multiplier", "DEX_multiplier", "INT_multiplier", "LUK_multiplier"):
                     d[f] = v
-                d["STR"] += rng.randint(0, 3)
+                d["STR"] += prng.randint(0, 3)
             stat = Stat(**d)
             ans, res = real.compute(stat, gear)
             evaluations += 1
@@ -313,8 +318,8 @@ def main(ck: Check):
         hard = [c for c in cases_here if (c[3] is None or len(c[3]) >= 3) and c[4] < slow]
         twos = [c for c in cases_here if c[3] is not None and len(c[3]) == 2 and c[4] < slow]
         skipped_slow += sum(1 for c in cases_here if c[4] >= slow)
-        rng.shuffle(hard)
-        rng.shuffle(twos)
+        srng.shuffle(hard)
+        srng.shuffle(twos)
         hard = hard[: n_corr_per_gear // 2]
         corr_cases += [c[:4] for c in ones + hard + twos[: n_corr_per_gear - len(hard)]]
     t_direct = time.time() - t_direct
